@@ -19,7 +19,7 @@ func FieldName(t types.Type, i int) string {
 		t = p.Elem()
 	}
 	if s, ok := t.Underlying().(*types.Struct); ok && i < s.NumFields() {
-		return s.Field(i).Name()
+		return canonicalField(typeName(t), s.Field(i).Name())
 	}
 	return fmt.Sprint(i)
 }
@@ -278,10 +278,44 @@ func EdgeFacts(b *ssa.BasicBlock) []Cond {
 		tOK := edgeDominates(d, t, b)
 		fOK := edgeDominates(d, f, b)
 		if tOK && !fOK {
-			out = append(out, Cond{iff.Cond, true, iff})
+			out = append(out, expandCond(Cond{iff.Cond, true, iff}, 0)...)
 		} else if fOK && !tOK {
-			out = append(out, Cond{iff.Cond, false, iff})
+			out = append(out, expandCond(Cond{iff.Cond, false, iff}, 0)...)
 		}
+	}
+	return out
+}
+
+// expandCond decomposes a condition that is a materialised short-circuit value
+// (go/ssa builds `a || b` / `a && b` used as a value - e.g. a tagless switch case - as a phi
+// of a constant and the last operand): (a || b) false ⇒ a false and b false; (a && b) true ⇒ both true.
+func expandCond(c Cond, depth int) []Cond {
+	out := []Cond{c}
+	if depth > 4 {
+		return out
+	}
+	n := Normalize(c)
+	phi, ok := n.V.(*ssa.Phi)
+	if !ok || (phi.Comment != "||" && phi.Comment != "&&") {
+		return out
+	}
+	or := phi.Comment == "||"
+	if or == n.True {
+		return out // (a||b) true or (a&&b) false tells nothing about the operands individually
+	}
+	for i, e := range phi.Edges {
+		pred := phi.Block().Preds[i]
+		if k, isK := e.(*ssa.Const); isK && k.Value != nil && k.Value.Kind() == constant.Bool {
+			// this edge short-circuited: the operand tested in pred had the value of the constant
+			if iff, isIf := pred.Instrs[len(pred.Instrs)-1].(*ssa.If); isIf {
+				// the whole expression has the value opposite to this short-circuit constant, so this edge was NOT taken:
+				// the branch condition in pred had the value that leads away from the phi block
+				edgeVal := pred.Succs[0] == phi.Block()
+				out = append(out, expandCond(Cond{iff.Cond, !edgeVal, iff}, depth+1)...)
+			}
+			continue
+		}
+		out = append(out, expandCond(Cond{e, n.True, c.If}, depth+1)...)
 	}
 	return out
 }
